@@ -190,6 +190,53 @@ class ShapeEq:
         return sig
 
 
+class MixedDegreeEq:
+    """== on closed curves that mix straight and curved pieces must return a bool.  The comparison runs the Newton
+    projection on the curved pieces, which is outside the symbolic fragment: the cell is declared intractable and is
+    spot-checked on the plain library at its witness (a regression witness for the repaired mixed-degree defect)."""
+
+    nfree = 0
+    spot_names = ["== on a mixed-degree curve did not return True for identical curves"]
+
+    def __init__(self, chain):
+        self.chain = chain
+        self.names = ["tx", "ty"]
+
+    def domain(self, xs):
+        return [xs[0] >= -10, xs[0] <= 10, xs[1] >= -10, xs[1] <= 10]
+
+    def seed(self):
+        return [F(1, 3), F(-2, 7)]
+
+    def run(self, xs):
+        from checks.c15 import CURVED
+        from symx import shims
+        from symx.core import Intractable
+
+        if shims.installed():
+            raise Intractable("== on curved pieces (Newton projection): outside the symbolic fragment")
+        segs = [[(F(x) + xs[0], F(y) + xs[1]) for x, y in seg] for seg in CURVED[self.chain]]
+        J, K = JordanCurve.from_ctrlpoints(segs), JordanCurve.from_ctrlpoints([list(s) for s in segs])
+        K.split([1], [F(1, 3)])
+        a, b, c = J == K, K == J, SimpleShape(J) == SimpleShape(K)
+        return {"vals": [a, b, c], "types": [type(v).__name__ for v in (a, b, c)]}
+
+    def oblige(self, tr, out):
+        return []
+
+    def on_raise(self, exc, func, line):
+        return "comparison raised " + exc
+
+    def confirm(self, name, xs, outcome, exc):
+        if exc is not None:
+            return True, f"mixed-degree chain {self.chain}+({xs[0]}, {xs[1]}): {exc}"
+        ok = all(t == "bool" for t in outcome["types"]) and all(outcome["vals"])
+        return not ok, f"mixed-degree chain {self.chain}+({xs[0]}, {xs[1]}): {outcome}"
+
+    def signature(self, name, xs, outcome, exc):
+        return {"name": "mixed-degree =="}
+
+
 def _reordered(name, tx, ty):
     if name == "hollow":
         return ConnectedShape([geom.poly("hole", tx, ty), geom.poly("big", tx, ty)])
@@ -220,6 +267,8 @@ def specs(tier):
     for p, vx, vy in fam:
         for level in ("curve", "shape"):
             out.append(dict(module=Mo, scenario="CurveEq", params=dict(poly=p, vx=list(vx), vy=list(vy), level=level), time_budget=90 if tier == "quick" else 900))
+    for ch in ("q1", "q2", "c1"):
+        out.append(dict(module=Mo, scenario="MixedDegreeEq", params=dict(chain=ch)))
     for s in ["hollow", "two"] + (["framedot", "inv:two", "hollow2"] if tier != "quick" else []):
         for how in ("same", "reorder", "op"):
             out.append(dict(module=Mo, scenario="ShapeEq", params=dict(shape=s, how=how), time_budget=90 if tier == "quick" else 900))
